@@ -480,6 +480,12 @@ static Verdict runCase(const Case& c, Info& info)
     info.count("frames", stream.size());
     if (hitSegmented)
         info.tag("fault_hit_segmented_message");
+    for (const auto& sm : sent)
+        if (sm.nFrames > 1 && sm.payload.size() >= 65500)
+        {
+            info.tag("segmented_message_of_65500_or_more_bytes");
+            break;
+        }
     if (recoveredAfterFault)
         info.tag("complete_message_delivered_after_fault_on_its_endpoint");
     info.nontrivial = hitSegmented && recoveredAfterFault > 0;
@@ -509,6 +515,13 @@ static Case genBase(int tier, bool small)
             ms.nUnseg = *range<uint8_t>(1, 3);
             ms.segLen = *range<uint16_t>(4, 24);
             ms.lastLen = *range<uint16_t>(1, ms.segLen);
+            // one segmented message in sixteen is large: a total at the top of the 16-bit length range, around 2^15, or anywhere
+            if (!small && ms.nSeg >= 2 && *range<int>(0, 15) == 0)
+            {
+                size_t total = *rc::gen::weightedOneOf<size_t>({{3, range<size_t>(65500, 65535)}, {1, range<size_t>(32750, 32790)}, {1, range<size_t>(1000, 65535)}});
+                ms.segLen = static_cast<uint16_t>(total / ms.nSeg);
+                ms.lastLen = static_cast<uint16_t>(total - static_cast<size_t>(ms.nSeg - 1) * ms.segLen);
+            }
             ep.msgs.push_back(ms);
         }
         c.eps.push_back(ep);
